@@ -1249,12 +1249,19 @@ Definition ex_in2 : ainput := mkIn 8 true (firstn 60 HllC02.ex_stream2).     (* 
 Definition ex_in3 : ainput := mkIn 10 false (firstn 5 HllC02.ex_stream).     (* list *)
 Definition hrun := run_stream hip_new hip_update hip_carry.
 
-Lemma union_example : exists s1 s2 s3,
+Lemma spec_run_ex : forall lg_max i1 i2 i3 s1 s2 s3 c,
+  in_active i1 = true -> in_active i2 = true -> in_active i3 = false ->
+  spec_run lg_max [UMerge i1 s1; UMerge i2 s2; UMerge i3 s3; UValue c] (false, lg_max, [])
+  = (true, N.min (N.min lg_max (in_lgk i1)) (in_lgk i2), c :: in_cs i3 ++ in_cs i2 ++ in_cs i1 ++ []).
+Proof. intros lg_max i1 i2 i3 s1 s2 s3 c H1 H2 H3. cbn [spec_run fold_left spec_step]. rewrite H1, H2, H3. reflexivity. Qed.
+
+Lemma tag_of_run : forall lgk t cs s tg, hrun lgk t cs = Ok s ->
+  option_map sk_tag (match hrun lgk t cs with Ok s => Some s | _ => None end) = Some tg -> sk_tag s = tg.
+Proof. intros lgk t cs s tg R H. rewrite R in H. cbn in H. congruence. Qed.
+
+Lemma ex_sources : exists s1 s2 s3,
   hrun 10 T6 (in_cs ex_in1) = Ok s1 /\ hrun 8 T4 (in_cs ex_in2) = Ok s2 /\ hrun 10 T8 (in_cs ex_in3) = Ok s3 /\
-  Forall uop_ok [UMerge ex_in1 (with_est (hip_set_ooo true) s1); UMerge ex_in2 s2; UMerge ex_in3 s3; UValue (pack_coupon 77 9)] /\
-  exists u0 u, union_new 10 = Ok u0 /\
-  uops_run [UMerge ex_in1 (with_est (hip_set_ooo true) s1); UMerge ex_in2 s2; UMerge ex_in3 s3; UValue (pack_coupon 77 9)] u0 = Ok u /\
-  sk_lgk (un_gadget u) = 8 /\ sk_tag (un_gadget u) = TagArray.
+  SrcOK 10 true (in_cs ex_in1) s1 /\ SrcOK 8 true (in_cs ex_in2) s2 /\ SrcOK 10 false (in_cs ex_in3) s3.
 Proof.
   destruct HllC02.ex_stream_valid as [V1 V2].
   assert (V60 : Forall valid (firstn 60 HllC02.ex_stream2)) by (apply HllC02.validb_Forall; vm_compute; reflexivity).
@@ -1262,21 +1269,32 @@ Proof.
   destruct (stream_is_source 10 T6 _ ltac:(lia) V2) as (s1 & R1 & S1).
   destruct (stream_is_source 8 T4 _ ltac:(lia) V60) as (s2 & R2 & S2).
   destruct (stream_is_source 10 T8 _ ltac:(lia) V5) as (s3 & R3 & S3).
-  exists s1, s2, s3.
-  assert (T1 : sk_tag s1 = TagArray) by (assert (H : option_map sk_tag (match hrun 10 T6 HllC02.ex_stream2 with Ok s => Some s | _ => None end) = Some TagArray) by (vm_compute; reflexivity); unfold hrun in H; rewrite R1 in H; cbn in H; congruence).
-  assert (T2 : sk_tag s2 = TagArray) by (assert (H : option_map sk_tag (match hrun 8 T4 (firstn 60 HllC02.ex_stream2) with Ok s => Some s | _ => None end) = Some TagArray) by (vm_compute; reflexivity); unfold hrun in H; rewrite R2 in H; cbn in H; congruence).
-  assert (T3 : sk_tag s3 = TagList) by (assert (H : option_map sk_tag (match hrun 10 T8 (firstn 5 HllC02.ex_stream) with Ok s => Some s | _ => None end) = Some TagList) by (vm_compute; reflexivity); unfold hrun in H; rewrite R3 in H; cbn in H; congruence).
-  rewrite T1 in S1. rewrite T2 in S2. rewrite T3 in S3. cbn [tag_flag] in *.
+  rewrite (tag_of_run 10 T6 _ s1 TagArray R1) in S1 by (vm_compute; reflexivity).
+  rewrite (tag_of_run 8 T4 _ s2 TagArray R2) in S2 by (vm_compute; reflexivity).
+  rewrite (tag_of_run 10 T8 _ s3 TagList R3) in S3 by (vm_compute; reflexivity).
+  exists s1, s2, s3. split; [exact R1|]. split; [exact R2|]. split; [exact R3|]. split; [exact S1|]. split; [exact S2|exact S3].
+Qed.
+
+Lemma ex_in_active : in_active ex_in1 = true /\ in_active ex_in2 = true /\ in_active ex_in3 = false.
+Proof. repeat split; vm_compute; reflexivity. Qed.
+
+Lemma union_example : exists s1 s2 s3,
+  hrun 10 T6 (in_cs ex_in1) = Ok s1 /\ hrun 8 T4 (in_cs ex_in2) = Ok s2 /\ hrun 10 T8 (in_cs ex_in3) = Ok s3 /\
+  Forall uop_ok [UMerge ex_in1 (with_est (hip_set_ooo true) s1); UMerge ex_in2 s2; UMerge ex_in3 s3; UValue (pack_coupon 77 9)] /\
+  exists u0 u, union_new 10 = Ok u0 /\
+  uops_run [UMerge ex_in1 (with_est (hip_set_ooo true) s1); UMerge ex_in2 s2; UMerge ex_in3 s3; UValue (pack_coupon 77 9)] u0 = Ok u /\
+  sk_lgk (un_gadget u) = 8 /\ sk_tag (un_gadget u) = TagArray.
+Proof.
+  destruct ex_sources as (s1 & s2 & s3 & R1 & R2 & R3 & S1 & S2 & S3). exists s1, s2, s3.
   assert (Hval : valid (pack_coupon 77 9)) by (unfold valid; rewrite cvalue_pack; lia).
   assert (Hok : Forall uop_ok [UMerge ex_in1 (with_est (hip_set_ooo true) s1); UMerge ex_in2 s2; UMerge ex_in3 s3; UValue (pack_coupon 77 9)]).
-  { constructor; [apply (with_est_src_ok _ 10 true HllC02.ex_stream2); exact S1|]. constructor; [exact S2|].
+  { constructor; [apply (with_est_src_ok _ 10 true (in_cs ex_in1)); exact S1|]. constructor; [exact S2|].
     constructor; [exact S3|]. constructor; [exact Hval|constructor]. }
+  split; [exact R1|]. split; [exact R2|]. split; [exact R3|]. split; [exact Hok|].
   destruct (union_refines 10 _ ltac:(lia) Hok) as (u0 & u & Hn & Hrun & Hsh).
-  split; [exact R1|]. split; [exact R2|]. split; [exact R3|]. split; [assumption|].
   exists u0, u. split; [assumption|]. split; [assumption|].
-  assert (A1 : in_active ex_in1 = true) by reflexivity. assert (A2 : in_active ex_in2 = true) by reflexivity.
-  assert (A3 : in_active ex_in3 = false) by reflexivity.
-  cbn [spec_run fold_left spec_step] in Hsh. rewrite A1, A2, A3 in Hsh. cbn [orb in_lgk ex_in1 ex_in2] in Hsh.
+  destruct ex_in_active as (A1 & A2 & A3).
+  rewrite (spec_run_ex 10 ex_in1 ex_in2 ex_in3 _ _ _ _ A1 A2 A3) in Hsh.
   destruct Hsh as ((Hk & _ & Htag & _) & _).
   split; [rewrite Hk; reflexivity|]. apply Htag. now left.
 Qed.
